@@ -6,14 +6,45 @@ package eth
 
 //@ spec ishex(c byte) bool = (c >= '0' && c <= '9') || (c >= 'a' && c <= 'f') || (c >= 'A' && c <= 'F')
 //@ spec nib(c byte) uint64 = c <= '9' ? uint64(c - '0') : (c <= 'F' ? uint64(c - 'A') + 10 : uint64(c - 'a') + 10)
+//@ spec opaque allhex(s string) bool = forall k int :: 0 <= k && k < len(s) ==> ishex(s[k])
 //@ spec hexval(s string, i int) uint64 = i <= 0 ? 0 : (hexval(s, i-1) << 4) | nib(s[i-1])
 
 // C17: an error for any string containing a non-hex character; the exact
 // value for every valid spelling of a 64-bit quantity.
 //@ func decode props=C17
-//@   ensures [err-if-nonhex] result1 == nil ==> (forall k int :: 0 <= k && k < len(b) ==> ishex(b[k]))
+//@   ensures [err-if-nonhex] result1 == nil ==> allhex(b)
 //@   ensures [value] result1 == nil ==> len(b) <= 16 && result0 == hexval(b, len(b))
-//@   ensures [total] (forall k int :: 0 <= k && k < len(b) ==> ishex(b[k])) && len(b) <= 16 ==> result1 == nil
+//@   ensures [total] allhex(b) && len(b) <= 16 ==> result1 == nil
 //@   loop#0 invariant 0 <= rangepos && rangepos <= len(b) && rangepos <= 15
 //@   loop#0 invariant forall k int :: 0 <= k && k < rangepos ==> ishex(b[k])
 //@   loop#0 invariant res == hexval(b, rangepos)
+
+// JSON tokens: total (never panic on any token), exact on success.
+//@ func (*Uint64).UnmarshalJSON props=C17
+//@   ensures [short] len(data) < 4 ==> result != nil
+//@   ensures [value] result == nil ==> len(data) >= 4 && len(data) <= 20 && uint64(*hn) == hexval(string(data[3:len(data)-1]), len(data)-4)
+//@   ensures [err-if-nonhex] result == nil ==> allhex(string(data[3:len(data)-1]))
+//@   ensures [total] len(data) >= 4 && len(data) <= 20 && allhex(string(data[3:len(data)-1])) ==> result == nil
+
+//@ func (*Byte).UnmarshalJSON props=C17
+//@   ensures [short] len(data) < 4 ==> result != nil
+//@   ensures [value] result == nil ==> len(data) >= 4 && len(data) <= 20 && uint8(*b) == uint8(old(hexval(string(data[3:len(data)-1]), len(data)-4)))
+//@   ensures [err-if-nonhex] result == nil ==> old(allhex(string(data[3:len(data)-1])))
+
+//@ func (*Bytes).Write props=C17
+//@   requires len(p) == 0 || base(p) != base(*hb)
+//@   ensures [len] len(*hb) == len(p) && result0 == len(p) && result1 == nil
+//@   ensures [bytes] forall k int :: 0 <= k && k < len(p) ==> (*hb)[k] == old(p[k])
+
+// Byte strings: an odd number of digits or a non-hex digit is an error; on
+// success the destination holds exactly the decoded bytes (len == decoded
+// length, every byte overwritten: nothing of a previous value remains).
+//@ spec bytehex(d []byte, i int) byte = (byte(nib(d[i])) << 4) | byte(nib(d[i+1]))
+//@ func (*Bytes).UnmarshalJSON props=C17
+//@   requires len(data) < 4 || base(data) != base(*hb)
+//@   ensures [short] len(data) < 4 ==> result != nil
+//@   ensures [odd] result == nil ==> len(data) >= 4 && (len(data)-4) % 2 == 0
+//@   ensures [len] result == nil ==> len(*hb) == (len(data)-4)/2
+//@   ensures [bytes] result == nil ==> (forall k int :: 0 <= k && k < len(*hb) ==> (*hb)[k] == old(bytehex(data, 3+2*k)))
+//@   ensures [err-if-nonhex] result == nil ==> (forall k int :: 3 <= k && k < len(data)-1 ==> old(ishex(data[k])))
+//@   ensures [total] old(len(data) >= 4 && (len(data)-4) % 2 == 0 && (forall k int :: 3 <= k && k < len(data)-1 ==> ishex(data[k]))) ==> result == nil
